@@ -689,10 +689,13 @@ type Manager struct {
 	ctx     context.Context
 	running sync.Mutex
 	restart chan struct{}
-	tasks   []*Task
-	updates chan uint64
-	pgp     *pgxpool.Pool
-	conf    config.Root
+
+	// serializes calls to Restart
+	restartMut sync.Mutex
+	tasks      []*Task
+	updates    chan uint64
+	pgp        *pgxpool.Pool
+	conf       config.Root
 }
 
 func NewManager(ctx context.Context, pgp *pgxpool.Pool, conf config.Root) *Manager {
@@ -742,7 +745,14 @@ func (tm *Manager) runTask(t *Task) {
 // Ensures all running tasks stop
 // and calls [Manager.Run] in a new go routine.
 func (tm *Manager) Restart() error {
-	close(tm.restart)
+	tm.restartMut.Lock()
+	defer tm.restartMut.Unlock()
+	select {
+	case <-tm.restart:
+		// closed by an earlier restart that failed to load its tasks
+	default:
+		close(tm.restart)
+	}
 	ec := make(chan error)
 	go tm.Run(ec)
 	return <-ec
@@ -764,9 +774,12 @@ func (tm *Manager) Run(ec chan error) {
 		ec <- fmt.Errorf("loading tasks: %w", err)
 		return
 	}
+	// The new generation's restart channel is in place before
+	// a waiting [Manager.Restart] returns so that the next
+	// restart stops this generation and not the previous one.
+	tm.restart = make(chan struct{})
 	close(ec)
 
-	tm.restart = make(chan struct{})
 	var wg sync.WaitGroup
 	for i := range tm.tasks {
 		i := i
